@@ -25,7 +25,7 @@ RULE = ("one run = shaped GFA1 graph (match-only / '*' overlaps) + scheduled del
 PROBES = ["gfa2_graph", "mixed_sequences", "chain_ge3", "mixed_orientation_chain", "branching_junction", "cycle", 
           "hairpin_on_end", "two_chains_one_junction", "without_sequences", "merged_something", "merged_name_in_use",
           "nothing_to_merge", "after_mutation", "idempotent_checked", "star_overlap", "other_lines_present",
-          "twin_unnamed_edges", "member_of_unknown_length"]
+          "twin_unnamed_edges", "member_of_unknown_length", "unmergeable_chain"]
 
 
 def oend(o, out=True):
@@ -49,7 +49,7 @@ def gen_shape(rng, k):
 
     def ov():
         s = ovstyle if ovstyle != "mixed" else rng.choice(["match", "star"])
-        return "*" if s == "star" else "%dM" % rng.randint(1, 3)
+        return "*" if s == "star" else "%dM" % rng.choice([0, 1, 1, 2, 3])
     for _ in range(nchains):
         n = rng.randint(1, 5)
         if len(names) < n:
@@ -173,6 +173,18 @@ def gen(streams, tier, i):
             if hr.random() < 0.5:
                 ops.append({"op": "linear_paths_probe"})
             ops.append({"op": "rm", "id": "trial", "how": hr.choice(["rm", "disconnect"])})
+    if version == "gfa1" and hr.random() < 0.12:
+        # one link of the document gets an overlap that cannot be merged over (an insertion): if it joins a chain,
+        # merge_linear_paths() refuses, and refuses before it has merged any other chain
+        li = [j for j, o_ in enumerate(ops) if o_["op"] == "add" and o_["line"].startswith("L\t") and o_["line"].split("\t")[5] != "*"]
+        if li:
+            j = hr.choice(li)
+            f = ops[j]["line"].split("\t")
+            f[5] = "1M1I1M"
+            ops[j] = dict(ops[j], line="\t".join(f))
+            ops.append({"op": "linear_paths"})
+            ops.append({"op": "merge", "unmergeable": "\t".join(f)})
+            return {"cfg": {"order": mode, "version": version}, "ops": ops}
     ops.append({"op": "linear_paths"})
     ops.append({"op": "merge"})
     ops.append({"op": "merge_again"})
@@ -418,6 +430,22 @@ def run(scn, st):
                     core.call(gfapy.sequence.rc, q, valid=True)
             o = core.call(g.merge_linear_paths)
             st.count("oracle.merge_post_state")
+            if op.get("unmergeable"):
+                # is the link with the insertion a join of a chain?
+                bad_join = any(l[5] == op["unmergeable"] for l in pre.linear_joins())
+                if bad_join:
+                    st.count("probe.unmergeable_chain")
+                    if o.ok:
+                        raise core.Violation("unmergeable-merged", "a chain over %r was merged" % op["unmergeable"])
+                    if sorted(ob.text_lines(g)) != sorted(before_obs):
+                        raise core.Violation("refused-merge-changed", "merge_linear_paths() raised %s (a chain goes over %r) "
+                                             "but the graph changed: gone %r, new %r" %
+                                             (o.excname, op["unmergeable"],
+                                              [x for x in before_obs if x not in ob.text_lines(g)][:3],
+                                              [x for x in ob.text_lines(g) if x not in before_obs][:3]))
+                    return
+                if not o.ok:
+                    return
             if not o.ok:
                 raise core.Violation("merge-raised", "merge_linear_paths() raised %s: %s" % (o.excname, str(o.exc)[:300]),
                                      exc=o.excname, frame=o.frame,
@@ -494,6 +522,26 @@ def check_merge(g, pre, paths, cycles, st):
         inv.closed_symmetric(g)
     except inv.Bad as b:
         raise core.Violation("merge-broke-closure", "after merge_linear_paths: %s" % b.detail, clause2=b.clause)
+    if pre.version == "gfa2":
+        # what is written is GFA2: a position equal to the length of its segment carries the '$' (as every such
+        # position of the document before the merge did)
+        def dollars_ok(eg, lines_):
+            for ln in lines_:
+                f = ln.split("\t")
+                if f[0] == "E" and len(f) > 8:
+                    for sid, pp in ((f[2][:-1], f[4:6]), (f[3][:-1], f[6:8])):
+                        ln_ = eg.length.get(sid)
+                        for p_ in pp:
+                            if ln_ is not None and p_.rstrip("$").isdigit() and int(p_.rstrip("$")) == ln_ and not p_.endswith("$"):
+                                return ln
+            return None
+        post_text = [x for x in ob.text_lines(g)]
+        if dollars_ok(pre, [l[5] for l in pre.links] + pre.other) is None:
+            bad = dollars_ok(post, post_text)
+            st.count("oracle.last_positions_marked")
+            if bad is not None:
+                raise core.Violation("last-position-unmarked", "after merging, %r gives the last position of a segment "
+                                     "without '$'" % bad)
     cyc_segs = set(s for c in cycles for s in c)
     mapping = {}      # (seg, end) -> (merged, end)
     merged_names = {}
